@@ -159,4 +159,172 @@ theorem field_bit_and_data_bit_one_period_apart_undetected (mem : Bool) (feat c0
 example : fieldDistance 536870910 ⟨0, by omega⟩ ⟨7, by omega⟩ = ordN := fieldDistance_period_example
 example (a : Fin 8) (k : Fin 32) : fieldDistance 0 a k < ordN := fieldDistance_lt 0 a k (by omega)
 
+/-- non-vacuity on a concrete accepted file (header + comment block `03 01 00 41`, stored value 0xcf4d175e): bit 2 of
+its first data byte and bit 5 of its last one flipped - reported as corrupted on the memory route -/
+example : init true ([0x73, 0x6b, 0x79, 0x62, 2, 1, 94, 23, 77, 207] ++
+    (([] : Bytes) ++ [3 ^^^ UInt8.ofNat (2 ^ 2)] ++ [1, 0] ++ [0x41 ^^^ UInt8.ofNat (2 ^ 5)] ++ [])) = .error .ecorrupted := by
+  apply detect_two_bits_gap true 1 94 23 77 207 [] [1, 0] [] 3 0x41 ⟨2, by omega⟩ ⟨5, by omega⟩ (by decide) (by decide)
+  rw [Ne, accept_rule true 1 94 23 77 207 _ (by decide), Ne, Classical.not_not]
+  decide +kernel
+
+/-! ### the general criterion: detection depends on the error pattern alone -/
+
+/-- **Error-pattern criterion.**  Take an accepted checksummed file, alter the data after the field by any pattern
+`erest` (xor, same length) and the stored word by any `δ`.  The altered file escapes the checksum test exactly when `δ`
+equals the checksum of the pattern (placed behind ten zero bytes) - whatever the file is.  Every detection clause of the
+property is this criterion applied to a pattern whose checksum is known to differ from `δ`: `δ ≠ 0` with no data
+change (`detect_in_field`), `δ = 0` with a window of at most four bytes or two bits less than a period apart, `δ` one
+bit with one data bit (`crc_one_bit_ne_basis_period`). -/
+theorem corruption_undetected_iff (mem : Bool) (feat c0 c1 c2 c3 d0 d1 d2 d3 : UInt8) (rest erest : Bytes) (δ : BitVec 32)
+    (hf : feat.toNat &&& Gen.SB_BINARY_FEATURE_CRC32 ≠ 0) (hlen : rest.length = erest.length)
+    (hfield : le32 [d0, d1, d2, d3] = le32 [c0, c1, c2, c3] ^^^ δ)
+    (hacc : init mem ([0x73, 0x6b, 0x79, 0x62, 2, feat, c0, c1, c2, c3] ++ rest) ≠ .error .ecorrupted) :
+    init mem ([0x73, 0x6b, 0x79, 0x62, 2, feat, d0, d1, d2, d3] ++ xorBytes rest erest) ≠ .error .ecorrupted ↔
+      δ = crc 0 (zeros 10 ++ erest) := by
+  rw [Ne, accept_rule mem feat d0 d1 d2 d3 _ hf, Ne, Classical.not_not]
+  rw [Ne, accept_rule mem feat c0 c1 c2 c3 _ hf, Ne, Classical.not_not] at hacc
+  have h1 : Spec.fileCrc ([0x73, 0x6b, 0x79, 0x62, 2, feat, c0, c1, c2, c3] ++ rest)
+      = Spec.crc 0 ([0x73, 0x6b, 0x79, 0x62, 2, feat, 0, 0, 0, 0] ++ rest) := by
+    unfold Spec.fileCrc zeroCrcField
+    simp
+  have h2 : Spec.fileCrc ([0x73, 0x6b, 0x79, 0x62, 2, feat, d0, d1, d2, d3] ++ xorBytes rest erest)
+      = Spec.crc 0 ([0x73, 0x6b, 0x79, 0x62, 2, feat, 0, 0, 0, 0] ++ xorBytes rest erest) := by
+    unfold Spec.fileCrc zeroCrcField
+    simp
+  have hx : ([0x73, 0x6b, 0x79, 0x62, 2, feat, 0, 0, 0, 0] : Bytes) ++ xorBytes rest erest
+      = xorBytes ([0x73, 0x6b, 0x79, 0x62, 2, feat, 0, 0, 0, 0] ++ rest) (zeros 10 ++ erest) := by
+    rw [xorBytes_append _ _ _ _ (by simp [zeros])]
+    have := xorBytes_zeros ([0x73, 0x6b, 0x79, 0x62, 2, feat, 0, 0, 0, 0] : Bytes)
+    simp only [List.length_cons, List.length_nil] at this
+    rw [this]
+  rw [hfield, hacc, h1, h2, hx, crc_of_corrupted _ _ (by simp [zeros, hlen])]
+  constructor
+  · intro h
+    have h3 := congrArg (crc 0 ([0x73, 0x6b, 0x79, 0x62, 2, feat, 0, 0, 0, 0] ++ rest) ^^^ ·) h
+    simp only [← BitVec.xor_assoc, BitVec.xor_self, BitVec.zero_xor] at h3
+    exact h3
+  · intro h
+    rw [h]
+
+/-- corollary: with the stored word untouched, an alteration of the data goes unnoticed exactly when the pattern's
+checksum is zero -/
+theorem data_corruption_undetected_iff (mem : Bool) (feat c0 c1 c2 c3 : UInt8) (rest erest : Bytes)
+    (hf : feat.toNat &&& Gen.SB_BINARY_FEATURE_CRC32 ≠ 0) (hlen : rest.length = erest.length)
+    (hacc : init mem ([0x73, 0x6b, 0x79, 0x62, 2, feat, c0, c1, c2, c3] ++ rest) ≠ .error .ecorrupted) :
+    init mem ([0x73, 0x6b, 0x79, 0x62, 2, feat, c0, c1, c2, c3] ++ xorBytes rest erest) ≠ .error .ecorrupted ↔
+      crc 0 (zeros 10 ++ erest) = 0 := by
+  rw [corruption_undetected_iff mem feat c0 c1 c2 c3 c0 c1 c2 c3 rest erest 0 hf hlen (by simp) hacc]
+  exact eq_comm
+
+/-! ### any two distinct bit positions of the data, in any order, same byte or not -/
+
+/-- the pattern with bit `a` of byte `i` set in `n` bytes -/
+def bitPat (n i : Nat) (a : Fin 8) : Bytes := zeros i ++ [UInt8.ofNat (2 ^ a.val)] ++ zeros (n - i - 1)
+
+theorem bitPat_length (n i : Nat) (a : Fin 8) (h : i < n) : (bitPat n i a).length = n := by
+  simp [bitPat, zeros]; omega
+
+/-- its checksum behind the ten header bytes is the monomial whose exponent counts the register steps to the end -/
+theorem crc_bitPat (n i : Nat) (a : Fin 8) :
+    crc 0 (zeros 10 ++ bitPat n i a) = step1^[8 * (n - i - 1) + 8 + (31 - a.val)] e0 := by
+  have h := crc_one_bit_as_iterate (10 + i) (n - i - 1) a
+  have hz : zeros (10 + i) = zeros 10 ++ zeros i := by simp [zeros, List.replicate_add]
+  rw [hz] at h
+  simpa [bitPat, List.append_assoc] using h
+
+/-- **Two flipped bits at any two distinct positions of the data of an accepted file** - same byte or different bytes,
+in either order - are reported as corrupted, on both routes, for every file with fewer than 2^29 - 8 data bytes. -/
+theorem detect_two_distinct_data_bits (mem : Bool) (feat c0 c1 c2 c3 : UInt8) (rest : Bytes) (i1 i2 : Nat) (a1 a2 : Fin 8)
+    (hf : feat.toNat &&& Gen.SB_BINARY_FEATURE_CRC32 ≠ 0)
+    (h1 : i1 < rest.length) (h2 : i2 < rest.length) (hne : i1 ≠ i2 ∨ a1 ≠ a2) (hn : rest.length < 536870904)
+    (hacc : init mem ([0x73, 0x6b, 0x79, 0x62, 2, feat, c0, c1, c2, c3] ++ rest) ≠ .error .ecorrupted) :
+    init mem ([0x73, 0x6b, 0x79, 0x62, 2, feat, c0, c1, c2, c3] ++
+      xorBytes rest (xorBytes (bitPat rest.length i1 a1) (bitPat rest.length i2 a2))) = .error .ecorrupted := by
+  have hl1 := bitPat_length rest.length i1 a1 h1
+  have hl2 := bitPat_length rest.length i2 a2 h2
+  have hlen : rest.length = (xorBytes (bitPat rest.length i1 a1) (bitPat rest.length i2 a2)).length := by
+    simp [xorBytes, hl1, hl2]
+  by_contra hcon
+  have hund := (data_corruption_undetected_iff mem feat c0 c1 c2 c3 rest _ hf hlen hacc).mp hcon
+  have hsplit : zeros 10 ++ xorBytes (bitPat rest.length i1 a1) (bitPat rest.length i2 a2)
+      = xorBytes (zeros 10 ++ bitPat rest.length i1 a1) (zeros 10 ++ bitPat rest.length i2 a2) := by
+    rw [xorBytes_append _ _ _ _ rfl]
+    have := xorBytes_zeros (zeros 10)
+    simp only [zeros, List.length_replicate] at this ⊢
+    rw [this]
+  rw [hsplit, crc_of_corrupted _ _ (by simp [zeros, hl1, hl2]), crc_bitPat, crc_bitPat] at hund
+  have heq : step1^[8 * (rest.length - i1 - 1) + 8 + (31 - a1.val)] e0
+      = step1^[8 * (rest.length - i2 - 1) + 8 + (31 - a2.val)] e0 := by
+    have h3 := congrArg (· ^^^ step1^[8 * (rest.length - i2 - 1) + 8 + (31 - a2.val)] e0) hund
+    simpa [BitVec.xor_assoc] using h3
+  have ha1 := a1.isLt
+  have ha2 := a2.isLt
+  have hav : a1 ≠ a2 ↔ a1.val ≠ a2.val := by
+    constructor
+    · intro h hv; exact h (Fin.ext hv)
+    · intro h hv; exact h (by rw [hv])
+  rw [hav] at hne
+  rcases Nat.lt_or_ge (8 * (rest.length - i2 - 1) + 8 + (31 - a2.val)) (8 * (rest.length - i1 - 1) + 8 + (31 - a1.val)) with hlt | hge
+  · have hc := iterate_cancel _ _ (Nat.le_of_lt hlt) e0 heq
+    exact no_small_period _ (by omega) (by unfold ordN; omega) hc
+  · have hc := iterate_cancel _ _ hge e0 heq.symm
+    exact no_small_period _ (by omega) (by unfold ordN; omega) hc
+
+/-- non-vacuity: bits 0 and 7 of one byte (the third data byte) of the concrete accepted file -/
+example : init false ([0x73, 0x6b, 0x79, 0x62, 2, 1, 94, 23, 77, 207] ++
+    xorBytes [3, 1, 0, 0x41] (xorBytes (bitPat ([3, 1, 0, 0x41] : Bytes).length 2 ⟨0, by omega⟩)
+      (bitPat ([3, 1, 0, 0x41] : Bytes).length 2 ⟨7, by omega⟩))) = .error .ecorrupted := by
+  apply detect_two_distinct_data_bits false 1 94 23 77 207 [3, 1, 0, 0x41] 2 2 ⟨0, by omega⟩ ⟨7, by omega⟩ (by decide)
+    (by decide) (by decide) (Or.inr (by decide)) (by decide)
+  rw [Ne, accept_rule false 1 94 23 77 207 _ (by decide), Ne, Classical.not_not]
+  decide +kernel
+
+/-! ### the criterion on raw bytes: the stored word is little-endian and xor acts bytewise on it -/
+
+theorem byte4_testBit (n0 n1 n2 n3 : Nat) (h0 : n0 < 256) (h1 : n1 < 256) (h2 : n2 < 256) (j : Nat) :
+    (n0 + 256 * n1 + 65536 * n2 + 16777216 * n3).testBit j =
+      if j < 8 then n0.testBit j else if j < 16 then n1.testBit (j - 8)
+      else if j < 24 then n2.testBit (j - 16) else n3.testBit (j - 24) := by
+  have e : n0 + 256 * n1 + 65536 * n2 + 16777216 * n3
+      = 2 ^ 8 * (2 ^ 8 * (2 ^ 8 * n3 + n2) + n1) + n0 := by omega
+  rw [e, Nat.testBit_two_pow_mul_add _ (by omega)]
+  split
+  · rfl
+  · rw [Nat.testBit_two_pow_mul_add _ (by omega)]
+    split
+    · rw [if_pos (by omega)]
+    · rw [if_neg (by omega), Nat.testBit_two_pow_mul_add _ (by omega)]
+      split
+      · rw [if_pos (by omega), show j - 8 - 8 = j - 16 by omega]
+      · rw [if_neg (by omega), show j - 8 - 8 - 8 = j - 24 by omega]
+
+theorem le32_xor (a0 a1 a2 a3 e0 e1 e2 e3 : UInt8) :
+    le32 [a0 ^^^ e0, a1 ^^^ e1, a2 ^^^ e2, a3 ^^^ e3] = le32 [a0, a1, a2, a3] ^^^ le32 [e0, e1, e2, e3] := by
+  have ha0 := a0.toNat_lt; have ha1 := a1.toNat_lt; have ha2 := a2.toNat_lt
+  have he0 := e0.toNat_lt; have he1 := e1.toNat_lt; have he2 := e2.toNat_lt
+  have hx0 : a0.toNat ^^^ e0.toNat < 256 := Nat.xor_lt_two_pow (n := 8) ha0 he0
+  have hx1 : a1.toNat ^^^ e1.toNat < 256 := Nat.xor_lt_two_pow (n := 8) ha1 he1
+  have hx2 : a2.toNat ^^^ e2.toNat < 256 := Nat.xor_lt_two_pow (n := 8) ha2 he2
+  apply BitVec.eq_of_getLsbD_eq
+  intro i hi
+  simp only [le32, BitVec.getLsbD_xor, BitVec.getLsbD_ofNat, UInt8.toNat_xor]
+  rw [byte4_testBit _ _ _ _ hx0 hx1 hx2, byte4_testBit _ _ _ _ ha0 ha1 ha2, byte4_testBit _ _ _ _ he0 he1 he2]
+  simp only [hi, decide_true, Bool.true_and]
+  split
+  · exact Nat.testBit_xor ..
+  · split
+    · exact Nat.testBit_xor ..
+    · split <;> exact Nat.testBit_xor ..
+
+/-- **Error-pattern criterion, on the bytes of the file.**  Xor any four bytes `e0..e3` into the checksum field and any
+pattern `erest` into the data of an accepted file: the result escapes the checksum test exactly when the little-endian
+word `e0..e3` is the checksum of the data pattern. -/
+theorem corruption_undetected_iff_bytes (mem : Bool) (feat c0 c1 c2 c3 e0 e1 e2 e3 : UInt8) (rest erest : Bytes)
+    (hf : feat.toNat &&& Gen.SB_BINARY_FEATURE_CRC32 ≠ 0) (hlen : rest.length = erest.length)
+    (hacc : init mem ([0x73, 0x6b, 0x79, 0x62, 2, feat, c0, c1, c2, c3] ++ rest) ≠ .error .ecorrupted) :
+    init mem ([0x73, 0x6b, 0x79, 0x62, 2, feat, c0 ^^^ e0, c1 ^^^ e1, c2 ^^^ e2, c3 ^^^ e3] ++ xorBytes rest erest)
+        ≠ .error .ecorrupted ↔
+      le32 [e0, e1, e2, e3] = crc 0 (zeros 10 ++ erest) :=
+  corruption_undetected_iff mem feat c0 c1 c2 c3 _ _ _ _ rest erest _ hf hlen (le32_xor c0 c1 c2 c3 e0 e1 e2 e3) hacc
+
 end Sb.C05
